@@ -349,7 +349,7 @@ bool kirsch_kfifo_queue<T, Policies...>::committed(marked_ptr segment, marked_va
 template <class T, class... Policies>
 void kirsch_kfifo_queue<T, Policies...>::advance_head(guard_ptr& head_current, marked_ptr tail_current) noexcept {
   // (7) - this acquire-load synchronizes-with the release-CAS (13)
-  const marked_ptr head_next_segment = head_current->next.load(std::memory_order_acquire);
+  marked_ptr head_next_segment = head_current->next.load(std::memory_order_acquire);
   if (head_current != head_.load(std::memory_order_relaxed)) {
     return;
   }
@@ -360,6 +360,9 @@ void kirsch_kfifo_queue<T, Policies...>::advance_head(guard_ptr& head_current, m
     if (tail_next_segment.get() == nullptr) {
       return;
     }
+    // head_current and tail_current refer to the same segment, but the first load of next is not ordered
+    // with the loads of tail_ and might have returned an older value (nullptr) - head_ must never become null.
+    head_next_segment = tail_next_segment;
 
     if (tail_current == tail_.load(std::memory_order_relaxed)) {
       marked_ptr new_tail(tail_next_segment.get(), tail_current.mark() + 1);
